@@ -394,8 +394,12 @@ func (g *generator) walkList(schema *schemaparser.Schema) (ast.Type, error) {
 	case schema.Items2020 != nil:
 		itemsDef, err = g.walkDefinition(schema.Items2020)
 	default:
-		// TODO: schema.Items might not be a schema?
-		itemsDef, err = g.walkDefinition(schema.Items.(*schemaparser.Schema))
+		itemsSchema, isSchema := schema.Items.(*schemaparser.Schema)
+		if !isSchema {
+			return ast.Type{}, fmt.Errorf("unsupported form of 'items' (tuple validation)")
+		}
+
+		itemsDef, err = g.walkDefinition(itemsSchema)
 	}
 
 	// items contains an empty schema: `{}`
